@@ -57,9 +57,9 @@ def cases(tier, seed):
                 continue
             # the deep option/entry decoders are covered by H03a/H03t; here wide windows
             # only over the SOME/IP header and the SD header (message filtering, lengths)
-            if spec["m"] == "window" and spec["w"] > 2 and spec["pos"] >= 28:
+            if spec["m"] == "window" and spec["w"] > 2 and spec["pos"] >= 24:
                 continue
-            if spec["m"] == "window" and spec["w"] == 2 and spec["pos"] >= 28 and (tier == "quick" or spec["pos"] % 2):
+            if spec["m"] == "window" and spec["w"] == 2 and spec["pos"] >= 28:
                 continue
             if tier == "quick" and dgram == "pair" and spec["m"] != "window":
                 continue
